@@ -724,10 +724,18 @@ class XlsxRowWriter(AbstractRowWriter):
                         "cannot write cell to Excel file: text must not be enclosed in <r>...</r>: %r" % item,
                         self.location,
                     )
-            elif not isinstance(item, (datetime.date, datetime.time)):
+            elif isinstance(item, (datetime.date, datetime.time)):
+                if getattr(item, "tzinfo", None) is not None:
+                    # Excel has no time zones and xlsxwriter refuses such values.
+                    raise errors.DataFormatError(
+                        "cannot write cell to Excel file: date or time must not have a time zone: %r" % (item,),
+                        self.location,
+                    )
+            else:
                 try:
                     is_finite_number = math.isfinite(item)
-                except (TypeError, OverflowError):
+                except (TypeError, ValueError, OverflowError):
+                    # ValueError: signaling NaN of decimal.Decimal.
                     is_finite_number = False
                 if not is_finite_number:
                     raise errors.DataFormatError(
